@@ -1,5 +1,6 @@
 CONFIG = dict(
-    coqfiles=["Props/C19.v"],
+    coqfiles=["Props/C19.v", "Props/C19W.v"],
+    sub=["C19W"],
     n_quick=4000, n_thorough=300000, workers_quick=8,
     rule="four kinds of cases over names built from components a/ab/abc/b/ba/c (string prefixes that are not component prefixes, the empty name, "
          "extensions, parents and lookalikes of the registered names): "
